@@ -16,7 +16,7 @@ SOURCES = ('inline', 'dict', 'struct', 'hdf5', 'mixed')
 
 @st.composite
 def strategy(draw):
-    prof = Profile(vrl=[256, 8192], max_frames=2, max_channels=4, max_rows=16, max_width=5, casts=True, any_casts=True,
+    prof = Profile(vrl=[256, 8192], max_frames=2, max_channels=4, max_rows=16, max_width=5, casts=True, any_casts=True, nonmonotonic_index=True,
                    layouts=('C', 'F', 'strided', 'neg', 'ro', 'view'), specials=True, units=False,
                    sources=('struct',), chunks=True, windows=True, upper_names=True)
     plain = draw(st.integers(0, 3)) == 0
@@ -30,6 +30,14 @@ def strategy(draw):
     if plain:
         spec['write']['source'] = 'struct'
         spec['write']['opts'] = {'perm': None, 'extra': []}
+        if draw(st.booleans()):
+            # every field is used, in the array's own order, under a dataset name that differs from the channel name
+            k = 0
+            for op in spec['lfs'][0]['ops']:
+                if op['t'] == 'channel':
+                    k += 1
+                    op['dsname'] = f"field_{k}"
+            spec['renamed_fields'] = True
         spec['fail'] = None
         spec['plain'] = True
         return spec
@@ -49,8 +57,10 @@ def fingerprint(arr):
     while isinstance(getattr(base, 'base', None), np.ndarray):
         base = base.base
     raw = bytes(np.ascontiguousarray(base).view(np.uint8).reshape(-1).tobytes()) if base.size else b''
+    # field names and layout as plain values: a dtype object is shared between an array, its slices and its copies, so
+    # comparing dtype objects (or arrays) cannot see a rename made through that shared object
     return (hashlib.sha256(arr.tobytes()).hexdigest(), arr.dtype.str, arr.shape, arr.strides, bool(arr.flags.writeable),
-            hashlib.sha256(raw).hexdigest(), base.shape, base.dtype.str)
+            hashlib.sha256(raw).hexdigest(), base.shape, base.dtype.str, repr(arr.dtype.descr), repr(base.dtype.descr))
 
 
 class C19(Property):
@@ -73,11 +83,12 @@ class C19(Property):
         spec = copy.deepcopy(spec)
         fail = spec.pop('fail', None)
         plain = spec.pop('plain', False)
+        renamed = spec.pop('renamed_fields', False)
         src = spec['write'].get('source', 'inline')
         chans = [op for lf in spec['lfs'] for op in lf['ops'] if op['t'] == 'channel']
         rows = min(c['data']['shape'][0] for c in chans)
         ics = spec['write'].get('ics')
-        labels = ['src:' + src] + (['fail:' + fail] if fail else []) + (['struct-dtype-coincides'] if plain else [])
+        labels = ['src:' + src] + (['fail:' + fail] if fail else []) + (['struct-dtype-coincides'] if plain else []) + (['fields-under-other-names'] if renamed else [])
         nt = (src == 'struct' or any(c.get('cast') for c in chans) or any(c['data']['dt'][0] == '>' for c in chans)) \
             and bool(ics) and ics < rows
         try:
@@ -110,7 +121,8 @@ class C19(Property):
             after = fingerprint(v)
             if after != before[k]:
                 what = [n for n, x, y in zip(('content', 'dtype', 'shape', 'strides', 'writeable', 'base-content',
-                                              'base-shape', 'base-dtype'), before[k], after) if x != y]
+                                              'base-shape', 'base-dtype', 'field-names', 'base-field-names'),
+                                             before[k], after) if x != y]
                 viol.append(Violation(f"array-modified/{src}/{'+'.join(what)}", f"{k}: {what} changed ({outcome})"))
         if dict_keys is not None:
             if list(data) != dict_keys:
